@@ -153,6 +153,18 @@ class P:
                         variants.append(("paren-tight", s[:a0] + "(" * k + s[a:e] + ")" * k + s[e1:]))
             line = "PARSE:%s " % hx(s) + " ".join("PARSE:" + hx(v) for _, v in variants)
             items.append((line, (s, variants)))
+        # WIDE programs: hundreds of siblings (list elements, arguments, map entries, operands of one chain, statements), each
+        # wrapped in its own redundant parentheses - what parentheses cost must be given back when they close
+        for n in ((40, 300) if tier == "quick" else (40, 254, 255, 256, 300, 1000)):
+            names = ["v%d" % i for i in range(n)]
+            for plain, wrapped in (("[" + ", ".join(names) + "]", "[" + ", ".join("(%s)" % x for x in names) + "]"),
+                                   ("f(" + ", ".join(names) + ")", "f(" + ", ".join("((%s))" % x for x in names) + ")"),
+                                   ("{" + ", ".join("%s : 1" % x for x in names) + "}", "{" + ", ".join("(%s) : (1)" % x for x in names) + "}"),
+                                   (" + ".join(names), " + ".join("(%s)" % x for x in names)),
+                                   ("; ".join("%s + 1 > b" % x for x in names), "; ".join("(%s + 1) > b" % x for x in names)),
+                                   ("; ".join(names), "; ".join("(%s)" % x for x in names)),
+                                   (" && ".join("%s in l" % x for x in names), " && ".join("(%s) in (l)" % x for x in names))):
+                items.append(("PARSE:%s PARSE:%s" % (hx(plain), hx(wrapped)), (plain[:60] + "...", [("paren-wide", wrapped[:80] + "...")])))
         # programs under REGISTERED operators (word and symbolic; one name in two roles): every atom (name, number, string, boolean)
         # wrapped in redundant parentheses, with and without blanks around them, and every gap rewritten
         regsets = [
@@ -221,6 +233,14 @@ class P:
                     "ending in a name turns the pair into a call (`a 1` vs `a (1)`) (D19)")
         return None
 
+    @staticmethod
+    def nesting(text):
+        d = m = 0
+        for ch in text:
+            if ch in "([{": d += 1; m = max(m, d)
+            elif ch in ")]}": d -= 1
+        return m
+
     def oracle(self, case, impl):
         outs = impl.split(" ")
         if case.meta and len(case.meta) > 2: outs = outs[case.meta[2]:]      # registrations come first
@@ -231,6 +251,6 @@ class P:
         for (kind, v), o in zip(case.meta[1], outs[1:]):
             p = o.split(":")
             if p[0] != "OK" or p[1] != base[1]:
-                if base[1].count("(") > 150 and p[0] == "ERR": continue   # nesting limit reached by added parentheses
+                if p[0] == "ERR" and kind != "paren-wide" and base[1].count("(") > 150 and self.nesting(v) > 150: continue   # nesting limit reached by added parentheses
                 return "violates", "%s variant %r parses differently from %r (%s)" % (kind, v, case.meta[0], p[0])
         return "ok", ""
